@@ -1,6 +1,6 @@
 """C04 - page breaks occur only when required, and always when required."""
 from ..runner import Ob
-from ._pag import F_ASSIGN, F_META, HDR, assign_ob, partitions
+from ._pag import F_ASSIGN, F_META, HDR, assign_ob, glue_ob, partitions
 
 ORACLE = "breaks_iff_required(pages, H, S, G, nrow, add, new_page, C)"
 WHAT = ("page(i)!=page(i-1) => forced(i) or fill+h_i>avail; page(i)==page(i-1) => not forced and fill+h_i<=avail; "
@@ -130,6 +130,30 @@ def build(tier, seed):
         stubs=["PageBreakCalculator.calculate_row_metadata -> recorder returning an empty frame"],
         bounds="new_page, pageby_header symbolic; the three strategies",
         what="SublineStrategy forces new_page=True and passes subline_by; PageByStrategy passes the body's new_page"))
+    # O5: the heading height is a function of its arguments (same text, other table width / font: recomputed)
+    obs.append(Ob(
+        oid="O5.header_rows_history", sig="w1: int, w2: int, f2: int, z2: int", pre=["1 <= w1 <= 4 and 1 <= w2 <= 4", "0 <= f2 <= 1 and 0 <= z2 <= 1"],
+        header=HDR + "from vf.hlib import swapped, concrete_int\nfrom rtflite.strwidth import get_string_width as _real_gsw\n", timeout=T,
+        body=r"""
+    W1, W2 = concrete_int(w1, 1, 4), concrete_int(w2, 1, 4)
+    font2, size2 = (1, 4)[concrete_int(f2, 0, 1)], (9, 18)[concrete_int(z2, 0, 1)]
+    def gsw(text, font="Times New Roman", font_size=12, unit="in", dpi=72.0):
+        return 3.5 * (2 if font == 4 else 1) * (font_size / 9.0)        # a heading 3.5 in long in font 1 at 9pt
+    calc = calc_ns(10)
+    with swapped((_real_gsw, gsw)):
+        first = PBC._calculate_header_rows(calc, "Treatment group heading", float(W1), 1, 9)
+        second = PBC._calculate_header_rows(calc, "Treatment group heading", float(W2), font2, size2)
+    want1 = max(1, int(3.5 / W1) + 1)
+    want2 = max(1, int(3.5 * (2 if font2 == 4 else 1) * (size2 / 9.0) / W2) + 1)
+    return first == want1 and second == want2
+""",
+        funcs=["rtflite.pagination.core:PageBreakCalculator._calculate_header_rows"],
+        stubs=["get_string_width -> 3.5 in for the heading in font 1 at 9pt, scaling with font and size"],
+        bounds="the same heading text measured for two tables in one process: widths 1..4 in (symbolic), second call with font 1|4 and size 9|18",
+        what="the number of lines a group heading occupies is computed from THIS call's table width, font and size - nothing is "
+             "remembered from the same heading in an earlier table"))
+    # O6: the section glue hands the calculator the indices of exactly the columns that were removed from the display
+    obs.append(glue_ob("O6.section_glue", T))
     meta = {
         "explanation": "The real greedy page-assignment kernel PageBreakCalculator._assign_pages is executed symbolically by "
                        "CrossHair with fixed row count n and UNBOUNDED integer heights, nrow and reserved rows and symbolic "
